@@ -163,6 +163,10 @@ class PythonConstructRenderer:
             safe_desc_content = description.replace("\\", "\\\\")  # Escape backslashes first
             safe_desc_content = safe_desc_content.replace('"""', '\\"\\"\\"')  # Escape triple-double-quotes
             safe_desc_content = safe_desc_content.replace("\x00", "\\x00")  # NUL cannot appear in source code
+            stem = safe_desc_content[:-1]
+            if safe_desc_content.endswith('"') and (len(stem) - len(stem.rstrip("\\"))) % 2 == 0:
+                # A trailing unescaped quote would merge with the closing triple quotes
+                safe_desc_content = stem + '\\"'
             writer.write_line(f'"""Alias for {safe_desc_content}"""')  # Actual generated docstring uses """
         return writer.get_code()
 
